@@ -494,6 +494,46 @@ pub fn field_word<'a>(reply: &'a str, key: &str) -> Option<&'a str> {
     field(reply, key).map(|r| r.split(' ').next().unwrap_or(""))
 }
 
+// ---------------------------------------------------------------- child processes
+
+pub struct ChildOut {
+    pub stdout: Vec<u8>,
+    pub stderr: Vec<u8>,
+    pub code: i32,
+    pub timed_out: bool,
+}
+
+/// Run a command with a wall-clock limit (a panicking worker thread can leave `rg` spinning forever);
+/// stdout/stderr go through temporary files in `scratch` so that no pipe can fill up.
+pub fn run_with_timeout(cmd: &mut std::process::Command, scratch: &std::path::Path, secs: u64) -> Option<ChildOut> {
+    std::fs::create_dir_all(scratch).ok()?;
+    let so = scratch.join(format!("stdout-{}", std::process::id()));
+    let se = scratch.join(format!("stderr-{}", std::process::id()));
+    let fo = std::fs::File::create(&so).ok()?;
+    let fe = std::fs::File::create(&se).ok()?;
+    let mut child = cmd.stdin(std::process::Stdio::null()).stdout(fo).stderr(fe).spawn().ok()?;
+    let start = std::time::Instant::now();
+    let mut timed_out = false;
+    let code = loop {
+        match child.try_wait() {
+            Ok(Some(st)) => break st.code().unwrap_or(-1),
+            Ok(None) => {
+                if start.elapsed().as_secs() >= secs {
+                    let _ = child.kill();
+                    let _ = child.wait();
+                    timed_out = true;
+                    break -1;
+                }
+                std::thread::sleep(std::time::Duration::from_millis(2));
+            }
+            Err(_) => return None,
+        }
+    };
+    let stdout = std::fs::read(&so).unwrap_or_default();
+    let stderr = std::fs::read(&se).unwrap_or_default();
+    Some(ChildOut { stdout, stderr, code, timed_out })
+}
+
 // ---------------------------------------------------------------- independent readers
 
 /// lines with their terminators (`\n`)
